@@ -22,8 +22,24 @@ func c10Nest(rng *rand.Rand) string {
 	block = func(ind string, depth int, inLoop, inFunc bool, outer []string) bool {
 		n := 1 + rng.Intn(3)
 		local := append([]string(nil), outer...)
+		shadowed := map[string]bool{}
+		nestedScope := (inFunc && len(ind) >= 8) || (!inFunc && len(ind) >= 4) // outer names live in an enclosing scope
 		for i := 0; i < n; i++ {
-			switch k := rng.Intn(13); {
+			switch k := rng.Intn(15); {
+			case k >= 13 && nestedScope && len(outer) > 0:
+				// use and update an outer variable, then shadow it directly in this block (a loop body included): the
+				// uses before the declaration, the loop condition and everything after the block mean the OUTER variable
+				v := outer[rng.Intn(len(outer))]
+				if shadowed[v] {
+					break
+				}
+				shadowed[v] = true
+				fmt.Fprintf(&b, "%sprint \"pre\" %s\n%s%s = %s + 1\n", ind, v, ind, v, v)
+				if i == n-1 && rng.Intn(2) == 0 {
+					fmt.Fprintf(&b, "%s%s := \"shadow-%d\"\n%sprint \"sh\" %s\n", ind, v, rng.Intn(9), ind, v)
+				} else {
+					fmt.Fprintf(&b, "%s%s := %d\n%sprint \"sh\" %s\n", ind, v, 100+rng.Intn(9), ind, v)
+				}
 			case k < 2 || depth == 0:
 				v := fresh("v")
 				fmt.Fprintf(&b, "%s%s := %d\n%sprint \"%s\" %s\n", ind, v, rng.Intn(9), ind, v, v)
